@@ -403,10 +403,12 @@ class SpecGen:
         if k.get('boost') and depth == 0 and rnd.random() < k['boost']:
             # (swarm) some checks want much more of the context-sensitive forms
             if rnd.random() < 0.5 and k['ranges']:
+                mark = len(self.ranges_used), len(self.declared_extra)
                 ro = self.range_operand()
                 if ro and ' ' not in ro[0]:
                     fn = rnd.choice(('IFERROR', 'IFERROR', 'IFNA'))
                     return f'{fn}({ro[0]},{rnd.choice((-1, 5, 0))})', [], ro[1]
+                del self.ranges_used[mark[0]:], self.declared_extra[mark[1]:]
             return rnd.choice(('ROW()*10', 'COLUMN()*10', 'ROW()*10', 'ROW()+COLUMN()')), [], ['@self']
         if roll < 0.28:
             a, pa, da = self.expr(depth + 1) if rnd.random() < 0.3 else self.atom()
@@ -455,10 +457,12 @@ class SpecGen:
         if 0.96 <= roll < 0.975 and k.get('iferr') and k['ranges']:
             # functions that behave differently inside an array formula: outside one a
             # range argument is the "error" case
+            mark = len(self.ranges_used), len(self.declared_extra)
             ro = self.range_operand()
             if ro and ' ' not in ro[0]:
                 fn = rnd.choice(('IFERROR', 'IFERROR', 'IFNA'))
                 return f'{fn}({ro[0]},{rnd.choice((-1, 5, 0))})', [], ro[1]
+            del self.ranges_used[mark[0]:], self.declared_extra[mark[1]:]
         if 0.975 <= roll < 0.985 and k.get('rowcol_noarg') and depth == 0:
             # the same text in every cell, the value depends on where it stands
             return rnd.choice(('ROW()*10', 'COLUMN()*10', 'ROW()*10', 'ROW()+COLUMN()')), [], ['@self']
